@@ -63,13 +63,8 @@ class ClassTr:
     """Translates methods of one class (or module-level functions when cls is None)."""
 
     def __init__(self, tree, cls, prefix, ctor_params=None, methods=(), drop_args=('rtol', 'tol'),
-<<<<<<< HEAD
                  known=None, skip_attrs=(), const_attrs=None, extra_np1=None, delegates=None, extra_sources=(), ndim=None,
                  none_args=(), allow_dead=False):
-=======
-                 known=None, skip_attrs=(), const_attrs=None, extra_np1=None, obj_attr=None, none_args=(),
-                 param_calls=None, arg_objs=(), skip_calls=()):
->>>>>>> b-C09
         self.tree = tree
         self.ndim = ndim                     # None | 'scalar' | 'array': which side of `if x.ndim == 0:` is translated
         self.cls = cls
@@ -79,21 +74,8 @@ class ClassTr:
         self.known = dict(known or {})       # external callables: python name -> (coq name, n ctor params to pass?)
         self.skip_attrs = set(skip_attrs)
         self.const_attrs = dict(const_attrs or {})
-<<<<<<< HEAD
         self.none_args = set(none_args)      # optional parameters fixed to None: `if p is None:` is resolved statically
         self.allow_dead = allow_dead         # untranslatable local assignments are tolerated iff the name is never read by translated code
-=======
-        self.obj_attr = obj_attr              # `self.<obj_attr>.X` reads constructor parameter X (pandas accessor classes)
-        self.none_args = set(none_args)       # optional arguments modelled as "not given" (`if a is None: a = e` becomes a let)
-        self.param_calls = dict(param_calls or {})   # `self.m(...)` calls that are free parameters of the model: method -> parameter
-        self.arg_objs = set(arg_objs)         # arguments that are records: `arg.X` becomes the parameter X
-        self.obj_fields = []                  # fields of arg_objs read by the current method, in order of first use
-        self.skip_calls = set(skip_calls)     # `self.m(...)` expression statements without effect on the value (validation)
-        self.list_consts = {}                 # local names bound to a literal list of tuples of numbers (look-up tables)
-        self._used_param_calls = set()
-        self._rbar = set()                    # let-bound names of type Rbar (values built with np.inf)
-        self._inlining = []
->>>>>>> b-C09
         self.classes = {n.name: n for n in tree.body if isinstance(n, ast.ClassDef)}
         for p in extra_sources:               # base classes that live in another file (C06: NotchApproximationLawBase)
             for n in ast.parse(open(p).read()).body:
@@ -203,54 +185,6 @@ class ClassTr:
             return []
         return [a.arg for a in init.args.args if a.arg != 'self'] + [a.arg for a in init.args.kwonlyargs]
 
-    # ---- properties (read-only computed attributes), inlined at their use
-    def _property(self, name):
-        if self.cls is None:
-            return None
-        _, fn = self._find_method(name)
-        if fn is None:
-            return None
-        for d in fn.decorator_list:
-            if isinstance(d, ast.Name) and d.id == 'property':
-                return fn
-        return None
-
-    def _inline_property(self, name, fn):
-        if name in self._inlining or len(self._inlining) > 8:
-            raise Unsupported('recursive property ' + name)
-        self._inlining.append(name)
-        try:
-            lets = []
-            r = self.body(strip_doc(fn.body), {}, lets)
-        finally:
-            self._inlining.pop()
-        return '(%s %s)' % (' '.join(lets), r) if lets else r
-
-    # ---- values that may be infinite: np.where(..., np.inf) becomes a Coquelicot Rbar
-    @staticmethod
-    def _is_inf(n):
-        return isinstance(n, ast.Attribute) and isinstance(n.value, ast.Name) and n.value.id == 'np' and n.attr == 'inf'
-
-    def has_inf(self, n, env):
-        for x in ast.walk(n):
-            if self._is_inf(x):
-                return True
-            if isinstance(x, ast.Name) and env.get(x.id) in self._rbar:
-                return True
-        return False
-
-    def expr_rbar(self, n, env):
-        if self._is_inf(n):
-            return 'p_infty'
-        if isinstance(n, ast.UnaryOp) and isinstance(n.op, ast.USub) and self._is_inf(n.operand):
-            return 'm_infty'
-        if isinstance(n, ast.Name) and env.get(n.id) in self._rbar:
-            return env[n.id]
-        if isinstance(n, ast.Call) and isinstance(n.func, ast.Attribute) and isinstance(n.func.value, ast.Name) \
-                and n.func.value.id == 'np' and n.func.attr == 'where' and len(n.args) == 3 and not n.keywords:
-            return '(if %s then %s else %s)' % (self.cond(n.args[0], env), self.expr_rbar(n.args[1], env), self.expr_rbar(n.args[2], env))
-        return '(Finite %s)' % self.expr(n, env)
-
     # ---- expressions
     def attr_name(self, a):
         return 'self_' + a.lstrip('_')
@@ -260,15 +194,10 @@ class ClassTr:
             return lit(n.value)
         if isinstance(n, ast.Name):
             if n.id in env:
-<<<<<<< HEAD
                 if env[n.id] in ('@none', '@dead'):
                     raise Unsupported('use of %s (%s)' % (n.id, {'@none': 'fixed to None', '@dead': 'untranslatable local'}[env[n.id]]))
                 if env[n.id].startswith('@local:'):     # a local function passed as a value (e.g. to integrate.quad)
                     return env[n.id][7:]
-=======
-                if env[n.id] in self._rbar:
-                    raise Unsupported('possibly infinite value %s used in arithmetic' % n.id)
->>>>>>> b-C09
                 return env[n.id]
             if n.id in self.modconsts:
                 return lit(self.modconsts[n.id])
@@ -282,19 +211,7 @@ class ClassTr:
                     return self.attr_name(a)
                 if ('_' + a) in self.attrs:      # read-only property `self.nu` -> `self._nu`
                     return self.attr_name('_' + a)
-                prop = self._property(a)
-                if prop is not None:
-                    return self._inline_property(a, prop)
                 raise Unsupported('self.%s is not an attribute assigned in __init__' % a)
-            if self.obj_attr and isinstance(n.value, ast.Attribute) and isinstance(n.value.value, ast.Name) \
-                    and n.value.value.id == 'self' and n.value.attr == self.obj_attr:
-                if n.attr in self.ctor_params:
-                    return ident(n.attr)
-                raise Unsupported('self.%s.%s is not a declared parameter' % (self.obj_attr, n.attr))
-            if isinstance(n.value, ast.Name) and n.value.id in self.arg_objs:
-                if n.attr not in self.obj_fields:
-                    self.obj_fields.append(n.attr)
-                return ident(n.attr)
             if isinstance(n.value, ast.Name) and n.value.id == 'np' and n.attr == 'pi':
                 return 'PI'
             if isinstance(n.value, ast.Name) and n.value.id == 'np' and n.attr == 'inf':
@@ -352,10 +269,6 @@ class ClassTr:
             if t is ast.Eq:
                 return '(Req_EM_T %s %s)' % (a, b)
             raise Unsupported('comparison ' + ast.dump(c.ops[0]))
-        if isinstance(c, ast.Call) and ast.unparse(c.func) == 'np.isclose' and len(c.args) == 2 and not c.keywords:
-            # numpy default tolerances:  |a - b| <= atol + rtol * |b|,  atol = 1e-8, rtol = 1e-5
-            a, b = self.expr(c.args[0], env), self.expr(c.args[1], env)
-            return '(Rle_dec (Rabs (%s - %s)) (1 / 100000000 + 1 / 100000 * Rabs %s))' % (a, b, b)
         raise Unsupported('condition ' + ast.unparse(c)[:60])
 
     def power(self, b, x, env):
@@ -428,11 +341,6 @@ class ClassTr:
             return '(Rabs %s)' % self.expr(n.args[0], env)
         if isinstance(f, ast.Name) and f.id == 'float' and len(n.args) == 1:
             return self.expr(n.args[0], env)
-        if isinstance(f, ast.Name) and f.id in ('max', 'min') and len(n.args) == 2 and not kw and f.id not in env:
-            return '(%s %s %s)' % ('Rmax' if f.id == 'max' else 'Rmin', self.expr(n.args[0], env), self.expr(n.args[1], env))
-        if isinstance(f, ast.Attribute) and isinstance(f.value, ast.Name) and f.value.id == 'self' and f.attr in self.param_calls:
-            self._used_param_calls.add(self.param_calls[f.attr])      # a library / pandas computation: free parameter of the model
-            return self.param_calls[f.attr]
         if isinstance(f, ast.Name) and f.id in env and env[f.id].startswith('@local:'):
             return '(%s %s)' % (env[f.id][7:], ' '.join(self.expr(a, env) for a in n.args))
         if isinstance(f, ast.Name) and f.id in self.known:
@@ -462,9 +370,7 @@ class ClassTr:
     # ---- statements
     def body(self, stmts, env, lets, need_return=True):
         """Translate a straight-line body; returns the Coq expression of the returned value."""
-        stmts = self.flatten(stmts)
         for i, st in enumerate(stmts):
-<<<<<<< HEAD
             if isinstance(st, ast.Assign) and len(st.targets) == 1 and isinstance(st.targets[0], ast.Subscript):
                 # masked self-assignment  x[x == c] = e   (element-wise: x := if x = c then e else x)
                 t = st.targets[0]
@@ -500,35 +406,6 @@ class ClassTr:
                             raise
                         env[t.id] = '@dead'      # any later read of the name by translated code raises Unsupported
                         continue
-=======
-            if isinstance(st, ast.Assign) and len(st.targets) == 1 and isinstance(st.targets[0], ast.Name) \
-                    and self._table_literal(st.value) is not None:
-                self.list_consts[st.targets[0].id] = self._table_literal(st.value)
-                continue
-            if isinstance(st, ast.If) and self._is_none_test(st.test) is not None and not st.orelse and len(st.body) == 1 \
-                    and isinstance(st.body[0], ast.Assign) and len(st.body[0].targets) == 1 \
-                    and isinstance(st.body[0].targets[0], ast.Name) and st.body[0].targets[0].id == self._is_none_test(st.test):
-                a = self._is_none_test(st.test)      # `if a is None: a = e`
-                if a in self.none_args:
-                    nm = ident(a)
-                    lets.append('let %s := %s in' % (nm, self.expr(st.body[0].value, env)))
-                    env[a] = nm
-                    continue
-                if a in env:                         # the argument is given explicitly in this model
-                    continue
-                raise Unsupported('optional argument ' + a)
-            if isinstance(st, ast.Assign) and len(st.targets) == 1:
-                t = st.targets[0]
-                if isinstance(t, ast.Name):
-                    if self.has_inf(st.value, env):
-                        nm = ident(t.id)
-                        lets.append('let %s := %s in' % (nm, self.expr_rbar(st.value, env)))
-                        env[t.id] = nm
-                        self._rbar.add(nm)
-                        continue
-                    self._rbar.discard(ident(t.id))
-                    v = self.expr(st.value, env)
->>>>>>> b-C09
                     nm = ident(t.id)
                     lets.append('let %s := %s in' % (nm, v))
                     env[t.id] = nm
@@ -568,7 +445,6 @@ class ClassTr:
                 lets.append('let %s := (fun %s => %s %s) in' % (nm, ' '.join(ident(a) for a in args), ' '.join(l2), r))
                 env[st.name] = '@local:' + nm
                 continue
-<<<<<<< HEAD
             if isinstance(st, ast.Assert):
                 # shape-consistency guard (`assert a.shape == b.shape and ...`): raises, never changes a value
                 if all(isinstance(x, ast.Attribute) and x.attr == 'shape' for x in ast.walk(st.test)
@@ -596,44 +472,6 @@ class ClassTr:
                 lets.append('let %s := if %s then %s else %s in' % (nm, self.cond(st.test, env), self.expr(st.body[0].value, env), env[tn]))
                 env[tn] = nm
                 continue
-=======
-            if isinstance(st, ast.Expr) and isinstance(st.value, ast.Call) and isinstance(st.value.func, ast.Attribute) \
-                    and isinstance(st.value.func.value, ast.Name) and st.value.func.value.id == 'self' \
-                    and st.value.func.attr in self.skip_calls:
-                continue
-            if isinstance(st, ast.Raise):
-                return '0'        # the call raises: outside the model (theorems carry the guard); value irrelevant
-            if isinstance(st, ast.If) and self._optional_key_default(st):
-                continue
-            if isinstance(st, ast.If) and len(st.body) == 1 and isinstance(st.body[0], ast.Return) and not st.orelse \
-                    and not isinstance(st.body[0].value, ast.Tuple):
-                # early return:  if c: return e ; rest
-                c = self.cond(st.test, env)
-                v = self.expr(st.body[0].value, env)
-                return '(if %s then %s else %s)' % (c, v, self.rest(stmts[i + 1:], env))
-            if isinstance(st, ast.If) and self._branch_assign(st) is not None:
-                # if/elif/else that assigns one and the same name in every branch (a branch may raise instead)
-                name = self._branch_assign(st)
-                v = self._branch_value(st, name, env)
-                nm = ident(name)
-                lets.append('let %s := %s in' % (nm, v))
-                env[name] = nm
-                continue
-            if isinstance(st, ast.For) and isinstance(st.iter, ast.Name) and st.iter.id in self.list_consts and not st.orelse \
-                    and isinstance(st.target, ast.Tuple) and all(isinstance(e, ast.Name) for e in st.target.elts):
-                # look-up loop over a literal table: unrolled
-                rows = self.list_consts[st.iter.id]
-                names = [e.id for e in st.target.elts]
-                if any(len(r) != len(names) for r in rows) or len(st.body) != 1 or not isinstance(st.body[0], ast.If) \
-                        or len(st.body[0].body) != 1 or not isinstance(st.body[0].body[0], ast.Return) or st.body[0].orelse:
-                    raise Unsupported('for loop ' + ast.unparse(st)[:60])
-                out = self.rest(stmts[i + 1:], env)
-                for r in reversed(rows):
-                    env2 = dict(env)
-                    env2.update({nm: lit(v) for nm, v in zip(names, r)})
-                    out = '(if %s then %s else %s)' % (self.cond(st.body[0].test, env2), self.expr(st.body[0].body[0].value, env2), out)
-                return out
->>>>>>> b-C09
             if isinstance(st, ast.If):
                 # `if not isinstance(x, float): x = x.astype(float)` style identities
                 src = ast.unparse(st)
@@ -650,15 +488,12 @@ class ClassTr:
                 v = st.value
                 if isinstance(v, ast.Tuple):
                     return '(' + ', '.join(self.expr(x, env) for x in v.elts) + ')'
-                if self.has_inf(v, env):
-                    return self.expr_rbar(v, env)
                 return self.expr(v, env)
             raise Unsupported('statement ' + ast.unparse(st)[:70])
         if not need_return:
             return None
         raise Unsupported('no return statement')
 
-<<<<<<< HEAD
     def body_nr(self, stmts, env, lets):
         """Translate a statement list that contains no `return` (a branch spliced into the enclosing body)."""
         sentinel = ast.Return(value=ast.Constant(value=0))
@@ -667,102 +502,6 @@ class ClassTr:
                 if isinstance(x, ast.Return):
                     raise Unsupported('return inside a branch')
         self.body(list(stmts) + [sentinel], env, lets)
-=======
-    def rest(self, stmts, env):
-        """The remaining statements as one expression.  Statements that only prepare an error message in front of an
-        unconditional raise are not translated."""
-        k = next((j for j, x in enumerate(stmts) if isinstance(x, ast.Raise)), None)
-        if k is not None and all(isinstance(x, (ast.Assign, ast.Expr)) for x in stmts[:k]):
-            return '0'
-        l2 = []
-        r = self.body(stmts, dict(env), l2)
-        return '(%s %s)' % (' '.join(l2), r) if l2 else r
-
-    @staticmethod
-    def _table_literal(v):
-        if not isinstance(v, ast.List) or not v.elts:
-            return None
-        rows = []
-        for e in v.elts:
-            if not isinstance(e, ast.Tuple):
-                return None
-            row = []
-            for c in e.elts:
-                if isinstance(c, ast.Constant) and isinstance(c.value, (int, float)) and not isinstance(c.value, bool):
-                    row.append(c.value)
-                else:
-                    return None
-            rows.append(row)
-        return rows
-
-    def _optional_key_default(self, st):
-        """`if "key" not in params: params["key"] = <constant>` for a key the model never reads."""
-        t = st.test
-        if not (isinstance(t, ast.Compare) and len(t.ops) == 1 and isinstance(t.ops[0], ast.NotIn) and isinstance(t.left, ast.Constant)
-                and isinstance(t.left.value, str) and isinstance(t.comparators[0], ast.Name) and t.comparators[0].id in self.arg_objs):
-            return False
-        if st.orelse or len(st.body) != 1 or not isinstance(st.body[0], ast.Assign):
-            return False
-        tg = st.body[0].targets[0]
-        ok = isinstance(tg, ast.Subscript) and isinstance(tg.value, ast.Name) and tg.value.id == t.comparators[0].id \
-            and isinstance(tg.slice, ast.Constant) and tg.slice.value == t.left.value and isinstance(st.body[0].value, ast.Constant)
-        if ok and t.left.value in self.obj_fields:
-            raise Unsupported('defaulted key %s is read by the model' % t.left.value)
-        if ok:
-            self._defaulted = getattr(self, '_defaulted', set()) | {t.left.value}
-        return ok
-
-    def _branches(self, st):
-        """[(test or None, body)] of an if/elif/else chain."""
-        out = []
-        while True:
-            out.append((st.test, st.body))
-            if len(st.orelse) == 1 and isinstance(st.orelse[0], ast.If):
-                st = st.orelse[0]
-                continue
-            if st.orelse:
-                out.append((None, st.orelse))
-            return out
-
-    def _branch_assign(self, st):
-        names = set()
-        br = self._branches(st)
-        for _, body in br:
-            if len(body) == 1 and isinstance(body[0], ast.Raise):
-                continue
-            if len(body) == 1 and isinstance(body[0], ast.Assign) and len(body[0].targets) == 1 and isinstance(body[0].targets[0], ast.Name):
-                names.add(body[0].targets[0].id)
-            else:
-                return None
-        if len(names) != 1 or br[-1][0] is not None:      # needs a final else: every path defines the name or raises
-            return None
-        return names.pop()
-
-    def _branch_value(self, st, name, env):
-        out = None
-        for test, body in reversed(self._branches(st)):
-            v = '0' if isinstance(body[0], ast.Raise) else self.expr(body[0].value, env)
-            out = v if test is None else '(if %s then %s else %s)' % (self.cond(test, env), v, out)
-        return out
-
-    @staticmethod
-    def _is_none_test(t):
-        if isinstance(t, ast.Compare) and len(t.ops) == 1 and isinstance(t.ops[0], ast.Is) and isinstance(t.left, ast.Name) \
-                and isinstance(t.comparators[0], ast.Constant) and t.comparators[0].value is None:
-            return t.left.id
-        return None
-
-    def flatten(self, stmts):
-        """`with np.errstate(...):` only silences warnings: its body is spliced in."""
-        out = []
-        for st in stmts:
-            if isinstance(st, ast.With) and all(ast.unparse(it.context_expr).startswith('np.errstate(') and it.optional_vars is None
-                                                for it in st.items):
-                out.extend(self.flatten(st.body))
-            else:
-                out.append(st)
-        return out
->>>>>>> b-C09
 
     def method(self, name):
         sup = name.startswith('super_')
@@ -776,22 +515,15 @@ class ClassTr:
                 raise Unsupported('method %s not found in %s' % (name, self.cls))
         args = [a.arg for a in fn.args.args if a.arg != 'self'] + \
                [a.arg for a in fn.args.kwonlyargs if a.arg not in self.drop_args]
-        args = [a for a in args if a not in self.drop_args and a not in self.none_args and a not in self.arg_objs]
+        args = [a for a in args if a not in self.drop_args]
         env = {a: ident(a) for a in args}
-<<<<<<< HEAD
         for a in args:
             if a in self.none_args:
                 env[a] = '@none'
         args = [a for a in args if a not in self.none_args]
-=======
-        self._rbar = set()
-        self.obj_fields = []
-        self._used_param_calls = set()
->>>>>>> b-C09
         lets = ['let %s := %s in' % (self.attr_name(a), e) for a, e in self.attr_lets]
         ret = self.body(strip_doc(fn.body), env, lets)
-        params = [ident(p) for p in self.ctor_params] + [ident(a) for a in args] + [ident(a) for a in sorted(self.obj_fields)] \
-            + [p for p in dict.fromkeys(self.param_calls.values()) if p in self._used_param_calls]
+        params = [ident(p) for p in self.ctor_params] + [ident(a) for a in args]
         out = 'Definition %s%s %s :=\n' % (self.prefix, name, ' '.join('(%s : R)' % p for p in params))
         for l in lets:
             out += '  %s\n' % l
@@ -823,6 +555,4 @@ def translate_module(src_path, items, requires=()):
             text, params = tr.method(m)
             out += text
             sigs[tr.prefix + m] = params
-    if 'p_infty' in out or 'Finite' in out:
-        out = out.replace('From PL Require Import Common.RPrelude.\n', 'From Coquelicot Require Import Rbar.\nFrom PL Require Import Common.RPrelude.\n', 1)
     return out, sigs
